@@ -154,18 +154,18 @@ Section Logic.
        (forall w, mode = Some w -> apply_vws K v dvW = p_dv K inp mode)) /\
     (forall m w, s_cmd p = Some m -> mode = Some w -> apply_mws K m (cmdW w) = p_pre K inp w).
 
-  (* how the Preloads object may change: only data_vector_mapper, and only towards completion *)
+  (* how the Preloads object may change: not at all (the last clause is kept for the proofs' convenience) *)
   Definition evolves (p p' : pstore T) : Prop :=
     s_use_wt p' = s_use_wt p /\ s_wt p' = s_wt p /\ s_omm p' = s_omm p /\ s_curv p' = s_curv p /\
     s_reg p' = s_reg p /\ s_lf p' = s_lf p /\ s_dlf p' = s_dlf p /\ s_momm p' = s_momm p /\ s_ldr p' = s_ldr p /\
-    is_some (s_dvm p') = is_some (s_dvm p) /\ s_cmd p' = s_cmd p /\
+    s_dvm p' = s_dvm p /\ s_cmd p' = s_cmd p /\
     (s_dvm p = Some (p_dv K inp mode) -> s_dvm p' = Some (p_dv K inp mode)).
   Lemma evolves_refl p : evolves p p.
   Proof. unfold evolves. tauto. Qed.
   Lemma evolves_trans p1 p2 p3 : evolves p1 p2 -> evolves p2 p3 -> evolves p1 p3.
   Proof.
     unfold evolves. intros (a1&a2&a3&a4&a5&a6&a7&a8&a9&a10&a11&a12) (b1&b2&b3&b4&b5&b6&b7&b8&b9&b10&b11&b12).
-    repeat split; try congruence. auto.
+    repeat split; try congruence; auto.
   Qed.
 
   Definition sound (q : qty) (c : cval T) (p : pstore T) : Prop :=
@@ -352,20 +352,9 @@ Section Logic.
   Proof. intros H st HI _. simpl. auto using evolves_refl. Qed.
 
   (* ---- data_vector ---- *)
-  Lemma Inv_dvm_set st v :
-    Inv st -> is_some (s_dvm (store st)) = true -> v = p_dv K inp mode ->
-    (forall w, mode = Some w -> apply_vws K v dvW = p_dv K inp mode) ->
-    Inv {| cache := cache st; store := dvm_set v (store st) |} /\ evolves (store st) (dvm_set v (store st)).
-  Proof.
-    intros [Hc Hs] Hp Hv Hw.
-    assert (Hev : evolves (store st) (dvm_set v (store st))).
-    { unfold evolves. simpl. repeat split; auto. intros _. now rewrite Hv. }
-    split; [|assumption]. split.
-    - destruct Hc as (c1&c2&c3&c4&c5&c6&c7&c8&c9).
-      refine (conj c1 (conj c2 (conj c3 (conj c4 (conj c5 (conj c6 (conj c7 (conj _ c9)))))))).
-      simpl. intros v' Hv'. injection Hv' as <-. split; [intros _ _; assumption | assumption].
-    - intros q c Hq. simpl in *. eapply sound_mono; [apply Hev | apply Hs, Hq].
-  Qed.
+  Lemma triple_gets_bind A B (f : pstore T -> A) (Pre : pstore T -> Prop) (k : A -> M B) Q :
+    (forall a, triple (fun p => Pre p /\ f p = a) (k a) Q) -> triple Pre (bind (gets f) k) Q.
+  Proof. intros H st HI HP. unfold bind, gets. apply (H (f (store st)) st HI (conj HP eq_refl)). Qed.
 
   Lemma dvm_ref_wt_ok w : mode = Some w ->
     triple TT (dvm_ref_wt K inp)
@@ -383,23 +372,22 @@ Section Logic.
     - (* w-tilde class *)
       destruct (has_func inp) eqn:Ef.
       + eapply triple_bind; [apply (dvm_ref_wt_ok w Em)|]. intros r.
+        apply triple_gets_bind. intros v.
         eapply triple_bind.
         { apply triple_frame_st; [|apply lf_val].
-          intros p p' (_&_&_&_&_&_&_&_&_&Hd&_) [H|[H H2]]; [now left|right; split; [assumption|congruence]]. }
-        intros lf st HI [Hr ->]. simpl.
+          intros p p' (_&_&_&_&_&_&_&_&_&Hd&_) [H Hv]. split.
+          - destruct H as [H|[H H2]]; [now left|right; split; [assumption|now rewrite Hd]].
+          - rewrite <- Hv. destruct r; simpl; [reflexivity|now rewrite Hd]. }
+        intros lf st HI [[Hr Hv] ->]. simpl.
         assert (Hpdv : p_dv K inp mode = apply_vws K (p_dvm K inp mode) (dv_func_writes K inp (lf_fresh K inp))).
         { unfold p_dv. now rewrite Em, Ef. }
         assert (HdvW : dvW = dv_func_writes K inp (lf_fresh K inp)) by (unfold dvW; now rewrite Ef).
-        destruct Hr as [->|[-> Hp]]; simpl.
-        * split; [assumption|]. split; [apply evolves_refl|]. now rewrite Hpdv.
+        split; [assumption|]. split; [apply evolves_refl|].
+        destruct Hr as [->|[-> Hp]]; simpl in Hv; subst v.
+        * now rewrite Hpdv.
         * destruct (s_dvm (store st)) as [cur|] eqn:Ec; [|discriminate].
-          pose proof (proj1 HI) as (_&_&_&_&_&_&_&Hcd&_). specialize (proj2 (Hcd _ Ec) w Em) as Hcd'. clear Hcd.
-          rename Hcd' into Hcd. rewrite <- HdvW. rewrite Hcd.
-          assert (Hside1 : is_some (s_dvm (store st)) = true) by now rewrite Ec.
-          assert (Hside2 : forall w', mode = Some w' -> apply_vws K (p_dv K inp mode) dvW = p_dv K inp mode).
-          { intros w' _. rewrite <- Hcd at 1. rewrite apply_vws_idem. assumption. }
-          destruct (Inv_dvm_set st (p_dv K inp mode) HI Hside1 eq_refl Hside2) as [HI' Hev].
-          split; [exact HI'|]. split; [exact Hev|]. split; reflexivity.
+          pose proof (proj1 HI) as (_&_&_&_&_&_&_&Hcd&_). specialize (proj2 (Hcd _ Ec) w Em) as Hcd'.
+          rewrite <- HdvW. now rewrite Hcd'.
       + apply triple_gets_case. intros [v|].
         * intros st HI E. simpl. split; [assumption|]. split; [apply evolves_refl|]. split; [reflexivity|].
           pose proof (proj1 HI) as (_&_&_&_&_&_&_&Hcd&_). specialize (proj2 (Hcd _ E) w Em) as Hcd'.
@@ -866,7 +854,7 @@ Section Top.
   Definition frozen_eq (p p' : pstore T) : Prop :=
     s_use_wt p' = s_use_wt p /\ s_wt p' = s_wt p /\ s_omm p' = s_omm p /\ s_curv p' = s_curv p /\
     s_reg p' = s_reg p /\ s_lf p' = s_lf p /\ s_dlf p' = s_dlf p /\ s_momm p' = s_momm p /\ s_ldr p' = s_ldr p /\
-    s_cmd p' = s_cmd p.
+    s_cmd p' = s_cmd p /\ s_dvm p' = s_dvm p.
   Lemma evolves_frozen mode p p' : evolves K inp mode p p' -> frozen_eq p p'.
   Proof. unfold evolves, frozen_eq. tauto. Qed.
 
@@ -892,8 +880,18 @@ Section Top.
     s_curv (snd (run_history K inp code p h)) = s_curv p.
   Proof. intros Hn Hf. destruct (reuse_any_history p h Hn Hf) as [_ (_&_&_&H&_)]. exact H. Qed.
 
-  (* the data_vector_mapper cell may be completed in place, but only to an array that is again a valid preload: the
-     store stays consistent for ever *)
+  (* NO slot is ever modified: the Preloads object after any history is the Preloads object before it *)
+  Theorem preloads_never_modified p h :
+    factory_slots_neutral p ->
+    (forall mode, make_inversion K inp p = Ok mode -> fresh_store mode p /\ laws_for mode p) ->
+    snd (run_history K inp code p h) = p.
+  Proof.
+    intros Hn Hf. destruct (reuse_any_history p h Hn Hf) as [_ H]. unfold frozen_eq in H.
+    destruct (snd (run_history K inp code p h)), p. simpl in H.
+    destruct H as (a1&a2&a3&a4&a5&a6&a7&a8&a9&a10&a11). congruence.
+  Qed.
+
+  (* the store stays consistent for ever *)
   Theorem store_stays_consistent p h mode :
     make_inversion K inp p = Ok mode -> fresh_store mode p -> laws_for mode p ->
     consistent K inp mode (snd (run_history K inp code p h)).
@@ -997,10 +995,11 @@ Section Toy.
     = Ok [PV [2; 2; 1]; PM [[4; 4; 5]; [4; 4; 5]; [5; 5; 12]]; PM [[5; 4; 5]; [4; 5; 5]; [5; 5; 12]];
           PRV (Ok [2; 2; 1]); PRT (Ok 5)].
   Proof. vm_compute. reflexivity. Qed.
-  (* the w-tilde class completes the preloaded data_vector_mapper in place: the cell does change *)
-  Lemma pA_completed_in_place :
-    s_dvm pA = Some [2; 2; 0] /\ s_dvm (snd (run_inversion zk inpA code pA [QDv])) = Some [2; 2; 1].
-  Proof. split; vm_compute; reflexivity. Qed.
+  (* the w-tilde class completes a COPY of the preloaded data_vector_mapper (/repo 95fc1c6): the cell does not change *)
+  Lemma pA_not_completed_in_place :
+    s_dvm pA = Some [2; 2; 0] /\ fst (run_inversion zk inpA code pA [QDv]) = Ok [PV [2; 2; 1]]
+    /\ s_dvm (snd (run_inversion zk inpA code pA [QDv])) = Some [2; 2; 0].
+  Proof. repeat split; vm_compute; reflexivity. Qed.
 
   (* mutant 1: no copy.copy of the preloaded curvature matrix.  One regularized mapper, mapping formalism. *)
   Definition inpB : input Z :=
